@@ -14,6 +14,17 @@ def main() -> int:
     ap.add_argument('--replay', default=None)
     a = ap.parse_args()
     prop = a.prop.upper()
+    # watchdog: a check never hangs (a changed tree may leave a harness double unused and real sockets / threads waiting)
+    import threading
+    limit = float(os.environ.get('VERIF_TIMEOUT_S', 2700 if a.tier == 'quick' else 14400))
+
+    def expired():
+        print(f"INFRASTRUCTURE-FAILURE property={prop} (no result after {int(limit)} s)", file=sys.stderr)
+        sys.stderr.flush()
+        os._exit(2)
+    wd = threading.Timer(limit, expired)
+    wd.daemon = True
+    wd.start()
     try:
         mod = importlib.import_module('harness.props.' + prop.lower())
         return core.check_main(mod.SPEC, a.tier, a.replay)
